@@ -17,8 +17,20 @@ EXPLANATION = ('Unbounded Coq theorems (all v, all widths) about the regenerated
 TRUSTED = ['tools/py2coq.py (translator, fail-closed; output cross-checked against the implementation on every run)',
            'Python int arithmetic == Coq Z arithmetic (floor div/mod, two\'s-complement bit ops)']
 ASSUMPTIONS = ['width arguments are small enough for CPython to allocate 1 << bits',
-               'clz, ctz, encode_imm32, value_to_bits/bits_to_bytes, align: translated and cross-checked; '
-               'their theorems are listed in Props/C39.v only when present']
+               'encode_imm32 theorems assume 0 <= v < 2^32 (its callers pass 32-bit values); clz for bits >= 1, '
+               'ctz/value_to_bytes_big_endian for bits/size >= 0; fuel > bits (always satisfiable)',
+               'wasm runtime wrappers: the names rotl/rotr/to_signed/to_unsigned/clz/ctz/popcnt/sign_extend used in '
+               'ppci/wasm/execution/runtime.py are the ones of ppci.utils.bitfun (checked on the import statements of '
+               'the current source on every run)',
+               'value_to_bits, bits_to_bytes, align: translated, cross-checked and swept, no theorem stated (not part of '
+               'the C39 statement)']
+
+WRAP_FILE = 'ppci/wasm/execution/runtime.py'
+WRAP_EXTERNAL = ['rotr', 'rotl', 'to_signed', 'to_unsigned', 'clz', 'ctz', 'popcnt', 'sign_extend']
+WRAP_ENTRIES = [{'name': n} for n in (
+    'i32_rotr', 'i64_rotr', 'i32_rotl', 'i64_rotl', 'i32_clz', 'i64_clz', 'i32_ctz', 'i64_ctz',
+    'i32_popcnt', 'i64_popcnt', 'i32_extend8_s', 'i32_extend16_s', 'i64_extend8_s', 'i64_extend16_s',
+    'i64_extend32_s')]
 
 ENTRIES = [
     {'name': 'rotate_right'}, {'name': 'rotate_left'}, {'name': 'rotl'}, {'name': 'reverse_bits'},
@@ -93,6 +105,55 @@ def ref(name, args):
             k += 1
         return k
     return None
+
+
+def ref_wrapper(name, args):
+    """n-bit operation on the two's-complement reading of the signed operand(s)"""
+    n = 32 if name.startswith('i32') else 64
+    op = name[4:]
+    u = [bit(args[0], i) for i in range(n)]          # bit() reads negative ints as two's complement
+    def signed(bits_):
+        x = sum(b << i for i, b in enumerate(bits_))
+        return x - (1 << n) if bits_[n - 1] else x
+    if op in ('rotl', 'rotr'):
+        c = args[1] % n
+        if op == 'rotl':
+            return signed([u[(i - c) % n] for i in range(n)])
+        return signed([u[(i + c) % n] for i in range(n)])
+    if op == 'clz':
+        k = 0
+        while k < n and u[n - 1 - k] == 0:
+            k += 1
+        return k
+    if op == 'ctz':
+        k = 0
+        while k < n and u[k] == 0:
+            k += 1
+        return k
+    if op == 'popcnt':
+        return sum(u)
+    if op.startswith('extend'):
+        w = int(op[6:].split('_')[0])
+        x = sum(bit(args[0], i) << i for i in range(w))
+        return x - (1 << w) if bit(args[0], w - 1) else x
+    return None
+
+
+def wrapper_pool(ctx, name, big=False):
+    rng = ctx.rng
+    n = 32 if name.startswith('i32') else 64
+    lo, hi = -(1 << (n - 1)), (1 << (n - 1)) - 1
+    vals = {0, 1, -1, 2, -2, lo, hi, lo + 1, hi - 1, 0x80, 0xFF, 0x7F, 0x8000, 0xFFFF, 0x7FFF, -129, -32769,
+            1 << (n - 2), -(1 << (n - 2))}
+    for k in range(0, n - 1, 5 if not big else 1):
+        vals.update([1 << k, -(1 << k), (1 << k) - 1])
+    for _ in range(6 if not big else 60):
+        vals.add(rng.randrange(lo, hi + 1))
+    vals = sorted(v for v in vals if lo <= v <= hi)
+    if name[4:] in ('rotl', 'rotr'):
+        cnts = sorted({0, 1, n - 1, n, n + 1, -1, lo, hi, rng.randrange(lo, hi + 1)})
+        return [(v, c) for v in vals for c in cnts]
+    return [(v,) for v in vals]
 
 
 def ref_encode_imm32(v):
@@ -243,7 +304,84 @@ def oracle_sweep(ctx, bf, thorough):
         if bad:
             ctx.violation({'fn': 'encode_imm32', 'args': [v], 'what': bad,
                            'actual': got.v if isinstance(got, OkV) else 'exception'})
+    # value_to_bytes_big_endian: size bytes, most significant first, of value mod 256^size
+    for v in boundary_pool(70) + [ctx.rng.randrange(-(1 << 70), 1 << 70) for _ in range(20)]:
+        for size in (0, 1, 2, 3, 4, 8, 9):
+            got = call_impl(bf.value_to_bytes_big_endian, [v, size])
+            n_eval += 1
+            exp = [((v % (256 ** size)) // (256 ** (size - 1 - k))) % 256 for k in range(size)]
+            if not (isinstance(got, OkV) and list(got.v) == exp):
+                ctx.violation({'fn': 'value_to_bytes_big_endian', 'args': [v, size], 'expected': exp,
+                               'actual': list(got.v) if isinstance(got, OkV) else 'exception'})
+    # wasm runtime wrappers on signed operands
+    rt = load_runtime()
+    if rt is not None:
+        for ent in WRAP_ENTRIES:
+            name = ent['name']
+            fn = getattr(rt, name, None)
+            if fn is None:
+                continue
+            for args in wrapper_pool(ctx, name, big=thorough):
+                exp = ref_wrapper(name, args)
+                got = call_impl(fn, list(args))
+                n_eval += 1
+                if not (isinstance(got, OkV) and got.v == exp):
+                    ctx.violation({'fn': name, 'args': list(args), 'expected': exp,
+                                   'actual': got.v if isinstance(got, OkV) else 'exception',
+                                   'how_to_replay': 'PYTHONPATH=/repo python -c "from ppci.wasm.execution.runtime import %s; print(%s%r)"' % (name, name, tuple(args))})
     return n_eval
+
+
+def load_runtime():
+    try:
+        import importlib
+        import ppci.wasm.execution.runtime as rt
+        importlib.reload(rt)
+        return rt
+    except Exception:   # noqa: BLE001
+        return None
+
+
+def check_wrapper_imports(ctx):
+    """the wrappers are translated against the FnInfo of Gen.bitfun: make sure the names they call are
+    really imported from ppci.utils.bitfun in the current source and not rebound in the module"""
+    import ast
+    import os
+    from vlib import REPO, TieBroken
+    tree = ast.parse(open(os.path.join(REPO, WRAP_FILE)).read())
+    imported, rebound = set(), set()
+    wrappers = {e['name'] for e in WRAP_ENTRIES}
+    for node in tree.body:
+        if isinstance(node, ast.ImportFrom):
+            for al in node.names:
+                nm = al.asname or al.name
+                if node.level == 3 and node.module == 'utils.bitfun' and al.asname in (None, al.name):
+                    imported.add(al.name)
+                elif nm in WRAP_EXTERNAL:
+                    rebound.add(nm)
+        elif isinstance(node, ast.Import):
+            for al in node.names:
+                if (al.asname or al.name) in WRAP_EXTERNAL:
+                    rebound.add(al.asname or al.name)
+        elif isinstance(node, (ast.FunctionDef, ast.ClassDef)):
+            if node.name in WRAP_EXTERNAL:
+                rebound.add(node.name)
+        elif isinstance(node, (ast.Assign, ast.AugAssign, ast.AnnAssign)):
+            for x in ast.walk(node):
+                if isinstance(x, ast.Name) and isinstance(x.ctx, ast.Store) and x.id in WRAP_EXTERNAL:
+                    rebound.add(x.id)
+    used = set()
+    for node in tree.body:
+        if isinstance(node, ast.FunctionDef) and node.name in wrappers:
+            for x in ast.walk(node):
+                if isinstance(x, ast.Name) and x.id in WRAP_EXTERNAL:
+                    used.add(x.id)
+    missing = sorted((used - imported) | (used & rebound))
+    if missing:
+        msg = '%s: %s not (only) imported from ...utils.bitfun' % (WRAP_FILE, ', '.join(missing))
+        ctx.log(msg)
+        ctx.failed_stages.append(('translate', msg))
+        raise TieBroken(msg)
 
 
 def search(ctx):
@@ -258,17 +396,26 @@ def search(ctx):
 
 
 def regen(ctx):
-    return ctx.gen_T('bitfun', 'ppci/utils/bitfun.py', ENTRIES)
+    infos, hashes = ctx.gen_T('bitfun', 'ppci/utils/bitfun.py', ENTRIES)
+    check_wrapper_imports(ctx)
+    winfos, whashes = ctx.gen_T('wasm_rt_bits', WRAP_FILE, WRAP_ENTRIES,
+                                imports=['From PV Require Import Gen.bitfun.'],
+                                known={n: infos[n] for n in WRAP_EXTERNAL})
+    infos = dict(infos)
+    infos.update(winfos)
+    hashes = dict(hashes)
+    hashes.update(whashes)
+    return infos, hashes
 
 
 def run(ctx):
     import ppci.utils.bitfun as bf
     infos, hashes = regen(ctx)
-    ok, _ = ctx.build(['Proofs/C39_bitfun.vo'])
+    ok, _ = ctx.build(['Proofs/C39_bitfun.vo', 'Proofs/C39_bitfun2.vo'])
     if ok:
         ctx.check_props('Props/C39.v')
     # ---- correspondence: regenerated model vs implementation
-    if ctx.build(['Gen/bitfun.vo', 'Lib/Val.vo'])[0]:
+    if ctx.build(['Gen/bitfun.vo', 'Gen/wasm_rt_bits.vo', 'Lib/Val.vo'])[0]:
         cases, recs = [], []
         seen = set()
         for ent in ENTRIES:
@@ -282,6 +429,14 @@ def run(ctx):
                 out = impl_outcome(fn, name, args)
                 cases.append((model_call(infos[name], name, args), out))
                 recs.append((name, args, out))
+        rt = load_runtime()
+        for ent in (WRAP_ENTRIES if rt is not None else []):
+            name = ent['name']
+            pool = wrapper_pool(ctx, name)
+            for args in pool[:: max(1, len(pool) // 60)]:
+                out = impl_outcome(getattr(rt, name), name, args)
+                cases.append((model_call(infos[name], name, args), out))
+                recs.append((name, args, out))
         nontriv = sum(1 for (n, a, o) in recs if isinstance(o, OkV) and a and a[0] not in (0, []))
         ctx.cov['distinct_nontrivial'] += nontriv
         for r in recs[:: max(1, len(recs) // 8)]:
@@ -291,12 +446,12 @@ def run(ctx):
             d = dist.setdefault(n, {'ok': 0, 'diag': 0, 'internal': 0})
             d['ok' if isinstance(o, OkV) else ('diag' if o is Diag else 'internal')] += 1
         ctx.cov['stages']['correspondence_distribution'] = dist
-        bad = ctx.run_cases('bitfun', ['Gen.bitfun'], cases)
+        bad = ctx.run_cases('bitfun', ['Gen.bitfun', 'Gen.wasm_rt_bits'], cases)
         if bad:
             for i in bad[:5]:
                 name, args, out = recs[i]
                 ctx.log('model/implementation disagree on', name, args, 'impl=', out.v if isinstance(out, OkV) else out)
-            ctx.failed_stages.append(('correspondence', 'Gen.bitfun disagrees with ppci.utils.bitfun on %d cases, first: %s%r'
+            ctx.failed_stages.append(('correspondence', 'Gen.bitfun/Gen.wasm_rt_bits disagree with the implementation on %d cases, first: %s%r'
                                       % (len(bad), recs[bad[0]][0], recs[bad[0]][1])))
     # ---- reference oracle sweep: always (cheap), deeper when a stage failed or tier is thorough
     n = oracle_sweep(ctx, bf, (not ctx.quick()) or bool(ctx.failed_stages))
@@ -305,11 +460,16 @@ def run(ctx):
     ctx.cov['exhaustive'] = False
 
 MANIFEST = {
-    'text': 'proof: unbounded Coq theorems (every value, every width) that rotl/rotr/rotate_left/rotate_right, reverse_bits, '
-            'sign_extend, to_signed/to_unsigned and popcnt of ppci/utils/bitfun.py equal their Z.testbit definitions; the model is '
-            'regenerated from the source by py2coq on every run, so the theorems are re-checked against the current code',
-    'note': 'trusted: Coq kernel, tools/py2coq.py (cross-checked per run against the implementation on ~3500 boundary cases), '
-            'Python int == Z. clz/ctz/encode_imm32/value_to_bits/bits_to_bytes are translated and cross-checked and swept against an '
-            'independent reference, theorems for them are added as they are proved (see Props/C39.v). No axioms.',
+    'text': 'proof: unbounded Coq theorems (every value incl. negative, every width) that rotl/rotr/rotate_left/rotate_right, '
+            'reverse_bits, sign_extend, to_signed/to_unsigned, popcnt, clz and ctz of ppci/utils/bitfun.py equal their Z.testbit '
+            'definitions; that encode_imm32 on 32-bit values succeeds exactly on the ARM-representable ones, returns a 12-bit code '
+            'that decodes to the input and uses the smallest rotation; that value_to_bytes_big_endian yields the size base-256 digits '
+            'of value mod 256^size, most significant first; and that the wasm runtime wrappers i32/i64_rotl/rotr/clz/ctz/popcnt and '
+            'iNN_extendM_s (ppci/wasm/execution/runtime.py) compute the n-bit operation on the two\'s-complement reading of their signed '
+            'operands. Both models are regenerated from the source by py2coq on every run, so the theorems are re-checked against the '
+            'current code',
+    'note': 'trusted: Coq kernel, tools/py2coq.py (cross-checked per run against the implementation on ~4000 boundary cases), '
+            'Python int == Z, the import check tying the wrapper callee names to ppci.utils.bitfun. value_to_bits/bits_to_bytes/align '
+            'are translated, cross-checked and swept against an independent reference but have no theorem. No axioms.',
     'technique': 'Coq proof over py2coq-regenerated model + differential correspondence',
 }
